@@ -234,3 +234,21 @@ class VerifManyParamOperation(FloatOperation):
 
     def _process_logic(self, data, alpha, beta, gamma, delta, eps=0.0, zeta=0.0, eta=0.0):
         return FloatDataType(data.data * alpha + beta + gamma + delta + eps + zeta + eta)
+
+
+# ---- unusual but legal strings reaching trace records: as an exception message, as a parameter value ----
+def make_failing_with(msg):
+    """Operation that raises ValueError(msg)."""
+    name = "VerifFailingWith_%d" % (abs(hash(msg)) % 10 ** 8)
+    if name not in _cache:
+        def _process_logic(self, data):
+            raise ValueError(msg)
+        _cache[name] = type(name, (FloatOperation,), {"_process_logic": _process_logic, "__doc__": "Raises ValueError with a chosen message."})
+    return _cache[name]
+
+
+class VerifNoteOperation(FloatOperation):
+    """Passes its input through; takes a free-text parameter `note`."""
+
+    def _process_logic(self, data, note):
+        return FloatDataType(data.data)
